@@ -200,13 +200,14 @@ class CanarySvc(Service):
 
 CAPPS = {}
 ATTACKS = ['internal entity in text', 'internal entity in mixed text', 'entity chain in text', 'internal entity in attribute',
-           'external entity in text', 'external DTD subset entity in attribute', 'parameter entity']
+           'external entity in text', 'external DTD subset entity in attribute', 'parameter entity',
+           'nesting bomb', 'entity expansion bomb in text', 'entity expansion bomb in attribute']
 
 
 @harness('C17', params=[(p, a) for p in sorted(PROTS) for a in ATTACKS], label=lambda p: '%s %s' % p,
          functions=['spyne.protocol.xml.XmlDocument.create_in_document', 'spyne.protocol.xml.XmlDocument.unicode_from_element',
                     'spyne.protocol.xml.XmlDocument.complex_from_element', 'spyne.protocol.soap.soap11._parse_xml_string'],
-         bounds={'attacks': 'seven concrete attack documents per protocol through the real parser and deserialiser with default '
+         bounds={'attacks': 'ten concrete attack documents (entities: internal, chained, external, external DTD, parameter; nesting and expansion bombs) x transport charset given or not x encoding declaration present or not, per protocol through the real parser and deserialiser with default '
                             'settings (concrete canaries; what libxml2 does is not modelled)'})
 def entity_canaries(sx, p):
     """with default settings the replacement text of an entity - internal, chained, external, from an external DTD
@@ -240,19 +241,31 @@ def entity_canaries(sx, p):
                 doctype, s_el = '<!DOCTYPE echo [<!ENTITY x SYSTEM "file://%s">]>' % path, '<s>a&x;b</s>'
             elif attack == 'external DTD subset entity in attribute':
                 doctype, t_el = '<!DOCTYPE echo SYSTEM "file://%s">' % dtd, '<t label="v&fromdtd;"><body>b</body></t>'
-            else:
+            elif attack == 'parameter entity':
                 doctype = '<!DOCTYPE echo [<!ENTITY %% p SYSTEM "file://%s"> %%p;]>' % dtd
                 s_el = '<s>a&fromdtd;b</s>'
+            elif attack == 'nesting bomb':
+                doctype, s_el = '', '<s>' + '<n>' * 3000 + '</n>' * 3000 + '</s>'
+            else:
+                doctype = '<!DOCTYPE echo [<!ENTITY a0 "INT-CANARY-0815">' + ''.join(
+                    '<!ENTITY a%d "%s">' % (i, ('&a%d;' % (i - 1)) * 10) for i in range(1, 10)) + ']>'
+                if attack.endswith('text'):
+                    s_el = '<s>&a9;</s>'
+                else:
+                    t_el = '<t label="&a9;"><body>b</body></t>'
             inner = '<echo xmlns="tns">%s%s</echo>' % (s_el, t_el)
             if pname != 'XmlDocument':
                 env = 'http://schemas.xmlsoap.org/soap/envelope/' if pname == 'Soap11' else 'http://www.w3.org/2003/05/soap-envelope'
                 doctype = doctype.replace('DOCTYPE echo', 'DOCTYPE Envelope')
                 inner = '<s:Envelope xmlns:s="%s"><s:Body>%s</s:Body></s:Envelope>' % (env, inner)
-            body = ('<?xml version="1.0"?>' + doctype + inner).encode()
+            # the transport may announce a charset and the document may declare its encoding: both parse paths
+            charset = sx.choose('transport_charset', [None, 'utf-8'])
+            decl = sx.choose('encoding_declaration', ['', ' encoding="UTF-8"'])
+            body = ('<?xml version="1.0"%s?>' % decl + doctype + inner).encode()
             SEEN.clear()
             ctx = MethodContext(server, MethodContext.SERVER)
             ctx.in_string = [body]
-            ctx, = server.generate_contexts(ctx)
+            ctx, = server.generate_contexts(ctx, charset)
             if ctx.in_error is None:
                 server.get_in_object(ctx)
             if ctx.in_error is None:
@@ -264,6 +277,10 @@ def entity_canaries(sx, p):
             seen = repr(SEEN.get('args'))
             leaks = [c for c in ('INT-CANARY-0815', 'FILE-CANARY-0815', 'DTD-CANARY-0815') if c in seen or c.encode() in out]
             sx.observe('leaks', leaks)
+            if 'bomb' in attack:
+                # refused as a client-side syntax fault (no exception may escape: the runner reports that by itself)
+                code = getattr(ctx.in_error, 'faultcode', None)
+                return not leaks and isinstance(code, str) and code.startswith('Client') and len(out) < 100000
             return not leaks
         finally:
             os.unlink(path)
